@@ -4,6 +4,7 @@ import (
 	"flag"
 	"fmt"
 	"os"
+	"runtime/pprof"
 	"strconv"
 	"strings"
 
@@ -48,7 +49,13 @@ func cmdRun(args []string) {
 	steps := fs.Int("steps", 2000000, "")
 	solver := fs.String("solver", "z3", "")
 	verbose := fs.Bool("v", false, "")
+	prof := fs.String("cpuprofile", "", "")
 	fs.Parse(args)
+	if *prof != "" {
+		f, _ := os.Create(*prof)
+		pprof.StartCPUProfile(f)
+		defer pprof.StopCPUProfile()
+	}
 	pr, err := loadProgram(*repo, *hdir)
 	if err != nil {
 		fmt.Fprintln(os.Stderr, "load:", err)
